@@ -1559,6 +1559,11 @@ def run(tier):
                     'equal keys are served the value computed for another object: a structurally equal but distinct tree is pickled / rendered with the identities of the first one')
 
     chk.guard(_memo_rule, chk, prog)
+    from .. import depthrec
+    chk.guard(depthrec.report, chk, prog, 'C12.R9',
+              'no function of the tree core that implements equality, hashing, copying, pickling or traversal recurses over the nesting depth (directly, through helpers, generators, tuple comparison, deepcopy or the generic pickler)',
+              None,
+              'equality, copies, pickles and traversals stop agreeing with the structure (they raise) exactly for the deeply nested inputs the explicit stacks were written for')
     extra = None
     if tier == 'thorough':
         from .. import selftest
